@@ -55,6 +55,11 @@ def _skip(text, i):
 
 
 def statements(text):
+    """statements of a block, equivalent forms normalised (norm_stmts below)"""
+    return norm_stmts(statements_raw(text))
+
+
+def statements_raw(text):
     out = []
     i = 0
     while True:
@@ -335,6 +340,8 @@ def bool_expr(e, env, calls=None, nat=None, atoms=None):
     atoms: function(AST) -> text or None, tried first (label comparisons, zero tests of amplitudes, ...)"""
     calls = calls or {}
     nat = nat or (lambda x: nat_expr(x, env, calls))
+    # comparisons are between nat expressions here: equivalent forms are made one first (norm_ast below, ints)
+    e = norm_ast(e, ints=True)
 
     def rec(x):
         if atoms is not None:
@@ -355,3 +362,765 @@ def bool_expr(e, env, calls=None, nat=None, atoms=None):
             return x[1]
         raise Untranslatable("boolean expression not recognised: %s" % (x,))
     return rec(e)
+
+
+# ---------------------------------------------------------------------------------------------------------------
+# NORMALISATION of equivalent forms (applied by every gen_*.py before it recognises / emits anything)
+#
+# A behaviour-preserving rewrite of the C++ should end as `same-as-snapshot`, a real change must not.  Every rule below is an
+# identity of C++ for ALL operand types unless it says otherwise, and is purely syntactic (no rule looks at a snapshot):
+#
+#   conditions (text -> text, `canon`):
+#     !(a == b) -> a != b      !(a != b) -> a == b      only when one operand certainly has a built-in type (literal, size(), an
+#                                                       iterator from begin() / end() / find(), an arithmetic cast, a local declared
+#                                                       int / size_t / bool / iterator ...): pomerol's classes have their own
+#                                                       operator== AND operator!= -- two functions that could be changed separately
+#     !(a && b) -> !a || !b    !(a || b) -> !a && !b    !!(boolean expr) -> expr     (short-circuit order is preserved)
+#     b > a -> a < b           b >= a -> a <= b                             (same operator on swapped operands)
+#     LITERAL == x -> x == LITERAL,  C.end() == it -> it == C.end()         (only a literal / end() on the left is moved)
+#     (a && b) && c, a && (b && c) -> a && b && c   (same for ||)
+#     redundant parentheses around a comparison / logical operand are dropped
+#     ints=True only (the CALLER knows both operands are integers or bool -- never applied to floating point, where NaN breaks it):
+#     !(a < b) -> b <= a       !(a <= b) -> b < a
+#     containers (std:: containers only have these members; `count` of a map / set key):
+#     C.size() == 0, C.size() < 1, C.size() <= 0, !C.size()           -> C.empty()
+#     C.size() != 0, 0 < C.size(), 1 <= C.size(), C.size() as a test  -> !C.empty()
+#     C.count(k) != 0, 0 < C.count(k), 1 <= C.count(k), C.count(k) as a test  -> C.find(k) != C.end()
+#     C.count(k) == 0, C.count(k) < 1, !C.count(k)                             -> C.find(k) == C.end()
+#   NOT rules (these are real changes and stay visible): `<` vs `<=`, `&&` vs `||`, a dropped or added conjunct, a changed
+#   operand, `==` vs `<=`, swapped operands of `<`, `-`, `/`.
+#
+#   statements (`norm_stmts`):
+#     return c ? X : Y;                 -> if (c) return X; else return Y;
+#     if (c) return X;  return Y;       -> if (c) return X; else return Y;      (both single returns, the last two statements)
+#     if (!c) A else B  /  if (a != b) A else B   -> if (c) B else A  /  if (a == b) B else A     (an `else` must be present;
+#                                                       a != b only under the condition on the operand types given above)
+#     conditions of if / while / for and the expression of `return <boolean expression>` are replaced by their canonical text
+#     -- but only when a rule fired: text that is already canonical is left exactly as the author wrote it.
+
+_NTOK = re.compile(r"""\s*(?:
+    (?P<w>"(?:[^"\\]|\\.)*"|'(?:[^'\\]|\\.)*'|\d[\w\.]*(?:[eE][-+]?\d+)?[a-zA-Z]*|\.\d+(?:[eE][-+]?\d+)?[a-zA-Z]*|[A-Za-z_]\w*)
+  | (?P<op><<=|>>=|->\*|->|::|\|\||&&|==|!=|<=|>=|<<|>>|\+\+|--|\+=|-=|\*=|/=|%=|\|=|&=|\^=|[^\s\w])
+)""", re.X)
+
+
+class _NoNorm(Exception):
+    """the text is outside what the boolean skeleton understands: it is left alone"""
+
+
+def _ntokens(text):
+    out, pos = [], 0
+    text = text.strip()
+    while pos < len(text):
+        m = _NTOK.match(text, pos)
+        if not m or m.end() == pos:
+            raise _NoNorm()
+        pos = m.end()
+        out.append(('w', m.group('w')) if m.group('w') is not None else ('op', m.group('op')))
+    return out
+
+
+def _join(toks):
+    """tokens -> text without blanks (one blank between two word tokens)"""
+    out = ""
+    prev_w = False
+    for k, v in toks:
+        if k == 'w' and prev_w:
+            out += " "
+        out += v
+        prev_w = (k == 'w')
+    return out
+
+
+_TYPE_TOKS = set(['::', ',', '*', '&', '<', '>', '>>'])
+
+
+def _template_close(t, i):
+    """t[i] is `<` preceded by a name: index of the matching `>` if this looks like a template argument list followed by `(` or `::`, else None"""
+    if i == 0 or t[i - 1][0] != 'w' or not re.match(r'[A-Za-z_]', t[i - 1][1]):
+        return None
+    depth = 0
+    for j in range(i, len(t)):
+        k, v = t[j]
+        if k == 'op' and v == '<':
+            depth += 1
+        elif k == 'op' and v in ('>', '>>'):
+            depth -= len(v)
+            if depth <= 0:
+                if depth == 0 and j + 1 < len(t) and t[j + 1] == ('op', '(') or (depth == 0 and j + 1 < len(t) and t[j + 1] == ('op', '::')):
+                    return j
+                return None
+        elif k == 'op' and v not in _TYPE_TOKS:
+            return None
+    return None
+
+
+def _split0(t, seps):
+    """split a token list at the depth-0 operators in seps (template argument lists count as nesting) -> [chunk, op, chunk, ...]"""
+    out, cur, depth, j = [], [], 0, 0
+    while j < len(t):
+        k, v = t[j]
+        if k == 'op' and v in '([{':
+            depth += 1
+        elif k == 'op' and v in ')]}':
+            depth -= 1
+            if depth < 0:
+                raise _NoNorm()
+        elif k == 'op' and v == '<' and depth == 0:
+            c = _template_close(t, j)
+            if c is not None:
+                cur.extend(t[j:c + 1])
+                j = c + 1
+                continue
+        if depth == 0 and k == 'op' and v in seps:
+            out.append(cur)
+            out.append(v)
+            cur = []
+        else:
+            cur.append(t[j])
+        j += 1
+    if depth != 0:
+        raise _NoNorm()
+    out.append(cur)
+    return out
+
+
+_ASSIGN = ('=', '+=', '-=', '*=', '/=', '%=', '|=', '&=', '^=', '<<=', '>>=', ',', '?', ':', ';')
+_ARITH = ('+', '-', '/', '%', '<<', '>>', '|', '^', '~')
+
+
+def _depth0_ops(t):
+    out, depth, j = [], 0, 0
+    while j < len(t):
+        k, v = t[j]
+        if k == 'op' and v in '([{':
+            depth += 1
+        elif k == 'op' and v in ')]}':
+            depth -= 1
+        elif k == 'op' and v == '<' and depth == 0:
+            c = _template_close(t, j)
+            if c is not None:
+                j = c + 1
+                continue
+        if depth == 0 and k == 'op':
+            out.append((j, v))
+        j += 1
+    return out
+
+
+def _bparse(t):
+    """token list -> skeleton:  ('or', [..]) ('and', [..]) ('not', x) ('cmp', op, atom, atom) ('atom', text)"""
+    if not t:
+        raise _NoNorm()
+    for _, v in _depth0_ops(t):
+        if v in _ASSIGN:
+            raise _NoNorm()
+    parts = _split0(t, ('||',))
+    if len(parts) > 1:
+        return ('or', [_bparse(p) for p in parts[0::2]])
+    parts = _split0(t, ('&&',))
+    if len(parts) > 1:
+        return ('and', [_bparse(p) for p in parts[0::2]])
+    ops0 = _depth0_ops(t)
+    # a single & | ^ next to a comparison binds differently from what the chunking below assumes
+    parts = _split0(t, ('==', '!='))
+    if len(parts) == 1:
+        parts = _split0(t, ('<', '<=', '>', '>='))
+    if len(parts) > 3:
+        raise _NoNorm()
+    if len(parts) == 3:
+        for (j, v) in ops0:
+            if v in ('|', '^') or (v == '&' and j > 0 and t[j - 1] not in (('op', '('),) and j != len(parts[0]) + 1):
+                raise _NoNorm()
+        return ('cmp', parts[1], _boperand(parts[0]), _boperand(parts[2]))
+    return _bunary(t)
+
+
+def _boperand(t):
+    """operand of a comparison: an arithmetic chunk (atom); a fully parenthesised boolean operand keeps its structure"""
+    if not t:
+        raise _NoNorm()
+    e = _bunary(t)
+    return e
+
+
+def _closes_at_end(t):
+    if t[0] != ('op', '('):
+        return False
+    depth = 0
+    for j, (k, v) in enumerate(t):
+        if k == 'op' and v == '(':
+            depth += 1
+        elif k == 'op' and v == ')':
+            depth -= 1
+            if depth == 0:
+                return j == len(t) - 1
+    return False
+
+
+def _bunary(t):
+    if not t:
+        raise _NoNorm()
+    if t[0] == ('op', '!'):
+        rest = t[1:]
+        if not rest:
+            raise _NoNorm()
+        for (j, v) in _depth0_ops(rest):
+            if v in _ARITH or (v in ('*', '&') and j > 0 and rest[j - 1] != ('op', '*') and rest[j - 1] != ('op', '!')):
+                raise _NoNorm()       # !a + b is (!a) + b: not a negated chunk
+        return ('not', _bunary(rest))
+    if _closes_at_end(t):
+        try:
+            return _bparse(t[1:-1])
+        except _NoNorm:
+            return ('atom', _join(t))
+    return ('atom', _join(t))
+
+
+_PREC = {'or': 1, 'and': 2, 'cmp': 3, 'not': 4, 'atom': 5}
+
+
+def _atom_needs_paren(text):
+    """an atom that is an arithmetic chunk with a depth-0 binary operator needs parentheses under `!`"""
+    try:
+        t = _ntokens(text)
+    except _NoNorm:
+        return True
+    return any(v in _ARITH or v in ('*', '&') and j > 0 for (j, v) in _depth0_ops(t))
+
+
+def _bshow(e, outer=0):
+    k = e[0]
+    if k == 'atom':
+        return e[1]
+    if k == 'not':
+        inner = e[1]
+        s = _bshow(inner, 4)
+        if inner[0] == 'atom' and _atom_needs_paren(inner[1]) and not (inner[1].startswith('(') and _closes_at_end(_ntokens(inner[1]))):
+            s = "(" + s + ")"
+        return "!" + s
+    if k == 'cmp':
+        s = _bshow(e[2], 4) + e[1] + _bshow(e[3], 4)
+    elif k == 'and':
+        s = "&&".join(_bshow(x, 2) for x in e[1])
+    else:
+        s = "||".join(_bshow(x, 1) for x in e[1])
+    return "(" + s + ")" if _PREC[k] < outer or (k == 'cmp' and outer == 4) else s
+
+
+_LITERAL = re.compile(r'(?:-?\d[\w\.]*|true|false|NULL|nullptr|[\w:\.\->\(\)\*]*?(?:\.|->)c?end\(\))$')
+_SIZE = re.compile(r'(.+?)(\.|->)size\(\)$')
+_COUNT = re.compile(r'(.+?)(\.|->)count\((.*)\)$')
+_SWAP = {'>': '<', '>=': '<=', '<': '>', '<=': '>=', '==': '==', '!=': '!='}
+_NEG_EQ = {'==': '!=', '!=': '=='}
+_NEG_ORD = {'<': '>=', '<=': '>', '>': '<=', '>=': '<'}          # integers only: !(a < b) = a >= b
+
+
+_BUILTIN = [frozenset()]          # names known to have a built-in arithmetic / bool / iterator type, innermost scope last
+_BUILTIN_T = (r'(?:const\s+)?(?:unsigned\s+short|unsigned\s+int|unsigned\s+long\s+long|unsigned\s+long|unsigned\s+char|unsigned|signed|short|int|long\s+long|'
+              r'long|char|bool|float|double|size_t|std::size_t|ptrdiff_t|std::ptrdiff_t|RealType|ParticleIndex|QuantumState|InnerQuantumState|'
+              r'JobId|WorkerId|(?:typename\s+)?[\w:]+(?:<[^;=()]*>)?::(?:const_)?(?:reverse_)?iterator)')
+_DECL_BUILTIN = re.compile(_BUILTIN_T + r'(?:\s+const)?\s+(\w+)\s*(?:=(?!=)|\(|$|,)')
+_BUILTIN_LIT = re.compile(r"""(?: -?\d[\w\.]*(?:[eE][-+]?\d+)?[a-zA-Z]* | true | false | NULL | nullptr | '(?:[^'\\]|\\.)' )$""", re.X)
+_BUILTIN_METHODS = ('end', 'cend', 'rend', 'crend', 'begin', 'cbegin', 'rbegin', 'crbegin', 'size', 'length', 'count', 'find',
+                    'lower_bound', 'upper_bound', 'empty', 'rank')
+_BUILTIN_CASTS = ('int', 'long', 'unsigned', 'size_t', 'std::size_t', 'bool', 'double', 'float', 'RealType', 'ParticleIndex',
+                  'QuantumState', 'InnerQuantumState')
+
+
+def _final_call(t):
+    """t = PREFIX NAME ( ARGS ) with the last `)` closing the `(` after NAME -> (PREFIX, NAME) else None"""
+    if not t.endswith(')'):
+        return None
+    depth = 0
+    for j in range(len(t) - 1, -1, -1):
+        if t[j] == ')':
+            depth += 1
+        elif t[j] == '(':
+            depth -= 1
+            if depth == 0:
+                m = re.search(r'([A-Za-z_][\w:]*(?:<[^<>()]*>)?)$', t[:j])
+                return (t[:m.start()], m.group(1)) if m else None
+    return None
+
+
+def _builtin_text(t):
+    if _BUILTIN_LIT.match(t):
+        return True
+    fc = _final_call(t)
+    if fc is None:
+        return False
+    prefix, name = fc
+    if prefix == "" and (name in _BUILTIN_CASTS or re.fullmatch(r'static_cast<(?:%s)>' % "|".join(_BUILTIN_CASTS), name)):
+        return True
+    return name in _BUILTIN_METHODS and (prefix.endswith('.') or prefix.endswith('->')) and len(prefix) > 1
+
+
+def _builtin_operand(e):
+    if e[0] in ('or', 'and', 'cmp', 'not'):
+        return True
+    if e[0] != 'atom':
+        return False
+    t = e[1]
+    while t.startswith('(') and t.endswith(')') and _balanced_text(t[1:-1]):
+        t = t[1:-1]
+    return t in _BUILTIN[-1] or (_balanced_text(t) and _builtin_text(t))
+
+
+def _eq_ok(a, b):
+    """a == b and a != b are each other's negation for certain: one operand has a built-in type (a literal, a size, an iterator
+    from begin() / end() / find(), a cast to an arithmetic type, a local declared with such a type).  For class types with their
+    own operator== / operator!= (IndexCombination4, Permutation4, QuantumNumbers, map entries of Operator, ...) the two are
+    different functions, and rewriting one into the other could hide a change of one of them."""
+    return _builtin_operand(a) or _builtin_operand(b)
+
+
+def declared_builtins(sts):
+    """names of the locals a statement list declares with a built-in arithmetic / bool / iterator type (loop variables included)"""
+    out = set()
+    for st in sts:
+        if st[0] == 'simple':
+            m = _DECL_BUILTIN.match(st[1])
+            if m:
+                out.add(m.group(1))
+                # T a = .., b = ..;
+                for mm in re.finditer(r',\s*(\w+)\s*(?:=(?!=)|$|,)', _depth0_text(st[1])):
+                    out.add(mm.group(1))
+        elif st[0] == 'for':
+            head = st[1].split(';')[0]
+            m = _DECL_BUILTIN.match(head.strip())
+            if m:
+                out.add(m.group(1))
+            out |= declared_builtins(st[2])
+        elif st[0] == 'if':
+            out |= declared_builtins(st[2])
+            if st[3] is not None:
+                out |= declared_builtins(st[3])
+        elif st[0] in ('while', 'foreach', 'block'):
+            out |= declared_builtins(st[-1] if st[0] != 'block' else st[1])
+        elif st[0] == 'do':
+            out |= declared_builtins(st[1])
+    return out
+
+
+def _depth0_text(text):
+    out, depth = "", 0
+    for ch in text:
+        if ch in '([{<':
+            depth += 1
+        elif ch in ')]}>':
+            depth -= 1
+        elif depth == 0:
+            out += ch
+    return out
+
+
+def _is_boolean(e):
+    return e[0] in ('or', 'and', 'cmp', 'not') or (e[0] == 'atom' and re.search(r'(?:\.|->)empty\(\)$', e[1]) is not None)
+
+
+def _bneg(e, ints, test=False):
+    """negation of a normalised skeleton.  test: the result is only used as a truth value (then !!x is x for any x)"""
+    k = e[0]
+    if k == 'not':
+        return e[1] if (test or _is_boolean(e[1])) else ('not', e)
+    if k == 'cmp' and e[1] in _NEG_EQ and (ints or _eq_ok(e[2], e[3])):
+        return _idiom(('cmp', _NEG_EQ[e[1]], e[2], e[3]))
+    if k == 'cmp' and ints and e[1] in _NEG_ORD:
+        return _idiom(('cmp', _NEG_ORD[e[1]], e[2], e[3]))
+    if k == 'and':
+        return ('or', _flat('or', [_bneg(x, ints, True) for x in e[1]]))
+    if k == 'or':
+        return ('and', _flat('and', [_bneg(x, ints, True) for x in e[1]]))
+    return ('not', e)
+
+
+def _flat(kind, items):
+    out = []
+    for x in items:
+        if x[0] == kind:
+            out.extend(x[1])
+        else:
+            out.append(x)
+    return out
+
+
+def _balanced_text(s):
+    depth = 0
+    for ch in s:
+        if ch in '([':
+            depth += 1
+        elif ch in ')]':
+            depth -= 1
+            if depth < 0:
+                return False
+    return depth == 0
+
+
+def _member(rx, text):
+    m = rx.match(text)
+    if not m or not _balanced_text(m.group(1)) or not re.match(r'[A-Za-z_(\*]', m.group(1)):
+        return None
+    if rx is _COUNT and not _balanced_text(m.group(3)):
+        return None
+    return m
+
+
+def _idiom(e):
+    """container idioms: C.size() / C.count(k) compared with 0 or 1 (either orientation)"""
+    if e[0] != 'cmp' or e[2][0] != 'atom' or e[3][0] != 'atom':
+        return e
+    op, a, b = e[1], e[2][1], e[3][1]
+    for rx in (_SIZE, _COUNT):
+        m = _member(rx, a)
+        if not m and _member(rx, b):
+            m, op, a, b = _member(rx, b), _SWAP[op], b, a          # member on the left
+        if not m:
+            continue
+        if (op, b) in (('==', '0'), ('<', '1'), ('<=', '0')):
+            zero = True
+        elif (op, b) in (('!=', '0'), ('>', '0'), ('>=', '1')):
+            zero = False
+        else:
+            continue
+        if rx is _SIZE:
+            em = ('atom', m.group(1) + m.group(2) + "empty()")
+            return em if zero else ('not', em)
+        cont = m.group(1) + m.group(2)
+        return ('cmp', '==' if zero else '!=', ('atom', cont + "find(" + m.group(3) + ")"), ('atom', cont + "end()"))
+    return e
+
+
+def _test_atom(e):
+    """an atom used as a truth value: C.size() / C.count(k) -> !C.empty() / C.find(k) != C.end()"""
+    if e[0] == 'atom' and (_member(_SIZE, e[1]) or _member(_COUNT, e[1])):
+        return _idiom(('cmp', '!=', e, ('atom', '0')))
+    return e
+
+
+def _bnorm(e, ints, test, orient=True):
+    """test: the value is only used as a truth value (condition, operand of ! && ||);  orient: > and >= become < and <= on swapped
+    operands (off when the text is handed on to code that recognises `Status >= Computed` literally)"""
+    k = e[0]
+    if k == 'atom':
+        return _test_atom(e) if test else e
+    if k == 'not':
+        return _bneg(_bnorm(e[1], ints, True, orient), ints, test)
+    if k in ('and', 'or'):
+        return (k, _flat(k, [_bnorm(x, ints, True, orient) for x in e[1]]))
+    op, a, b = e[1], _bnorm(e[2], ints, False, orient), _bnorm(e[3], ints, False, orient)
+    r = _idiom(('cmp', op, a, b))
+    if r[0] != 'cmp':
+        return r
+    op, a, b = r[1], r[2], r[3]
+    if orient and op in ('>', '>='):
+        op, a, b = _SWAP[op], b, a
+    if op in ('==', '!=') and a[0] == 'atom' and b[0] == 'atom' and _LITERAL.match(a[1]) and not _LITERAL.match(b[1]):
+        a, b = b, a
+    return ('cmp', op, a, b)
+
+
+def _orient(e):
+    k = e[0]
+    if k == 'not':
+        return ('not', _orient(e[1]))
+    if k in ('and', 'or'):
+        return (k, [_orient(x) for x in e[1]])
+    if k == 'cmp' and e[1] in ('>', '>='):
+        return ('cmp', _SWAP[e[1]], _orient(e[3]), _orient(e[2]))
+    if k == 'cmp':
+        return ('cmp', e[1], _orient(e[2]), _orient(e[3]))
+    return e
+
+
+def canon_tree(text, ints=False, test=True, orient=True):
+    """normalised skeleton of a C++ boolean expression, or None if the text is outside what the skeleton understands"""
+    try:
+        return _orient(_bnorm(_bparse(_ntokens(text)), ints, test, orient)) if orient else _bnorm(_bparse(_ntokens(text)), ints, test, orient)
+    except _NoNorm:
+        return None
+
+
+def canon(text, ints=False, test=True, orient=True):
+    """canonical text (no blanks) of a C++ condition; text outside the skeleton comes back squeezed and otherwise unchanged"""
+    e = canon_tree(text, ints, test, orient)
+    return squeeze(text) if e is None else _bshow(e)
+
+
+def same_cond(a, b, ints=False):
+    """two conditions are the same up to the rules above"""
+    return canon(a, ints) == canon(b, ints)
+
+
+def _plain(text):
+    """the text as the skeleton prints it when NO rule is applied (to see whether a rule fired)"""
+    try:
+        return _bshow(_bparse(_ntokens(text)))
+    except _NoNorm:
+        return None
+
+
+def canon_if_changed(text, ints=False, test=True):
+    """the canonical text if a rule changed the structure, else the text as it was written.  Comparisons keep the orientation the
+    author gave them (the recognisers downstream read `Status >= Computed`, `i >= 0` literally; the emitters orient themselves)"""
+    e = canon_tree(text, ints, test, orient=False)
+    if e is None:
+        return text
+    c = _bshow(e)
+    return text if c == _plain(text) or c == squeeze(text) else c
+
+
+def negative(text):
+    """the condition is a negation at top level: !x or a != b (after normalisation)"""
+    e = canon_tree(text, orient=False)
+    return e is not None and (e[0] == 'not' or (e[0] == 'cmp' and e[1] == '!=' and _eq_ok(e[2], e[3])))
+
+
+def negated(text, ints=False):
+    """canonical text of the negation of a condition, or None"""
+    e = canon_tree(text, ints, orient=False)
+    return None if e is None else _bshow(_bneg(e, ints, True))
+
+
+_TERMINAL = re.compile(r'(?:return\b|throw\b)')
+
+
+def _is_return(st):
+    return st[0] == 'simple' and re.match(r'return\b', st[1]) is not None
+
+
+def _split_tern(text):
+    """`c ? X : Y` at depth 0 (one ?: only) -> (c, X, Y) or None"""
+    try:
+        t = _ntokens(text)
+    except _NoNorm:
+        return None
+    ops = [(j, v) for (j, v) in _depth0_ops(t) if v in ('?', ':')]
+    if [v for _, v in ops] != ['?', ':']:
+        return None
+    if any(v in _ASSIGN and v not in ('?', ':') for _, v in _depth0_ops(t)):
+        return None
+    q, c = ops[0][0], ops[1][0]
+    cond, x, y = t[:q], t[q + 1:c], t[c + 1:]
+    if not cond or not x or not y:
+        return None
+    if _closes_at_end(cond):
+        cond = cond[1:-1]
+    return _respace(cond), _respace(x), _respace(y)
+
+
+def _respace(toks):
+    return _join(toks)
+
+
+def norm_stmts(sts, ints=False, builtin=()):
+    """the statement-level rules (see the table above); idempotent.  builtin: names (members, parameters) the caller knows to have
+    a built-in arithmetic / bool / iterator type; the locals declared with such a type in sts are found here.
+    PV_NO_NORM=1 in the environment switches the whole pass off (developer aid: shows what a rewrite would have given without it)"""
+    if os.environ.get("PV_NO_NORM"):
+        return sts
+    _BUILTIN.append(frozenset(_BUILTIN[-1] | set(builtin) | declared_builtins(sts)))
+    try:
+        return _norm_stmts(sts, ints)
+    finally:
+        _BUILTIN.pop()
+
+
+def _norm_stmts(sts, ints):
+    out = []
+    for st in sts:
+        out.append(_norm_stmt(st, ints))
+    # if (c) return X;  return Y;   (the last two statements)  ->  if / else
+    if len(out) >= 2 and out[-2][0] == 'if' and out[-2][3] is None and len(out[-2][2]) == 1 and _is_return(out[-2][2][0]) \
+            and _is_return(out[-1]) and squeeze(out[-2][2][0][1]) != 'return' and squeeze(out[-1][1]) != 'return':
+        out = out[:-2] + [('if', out[-2][1], out[-2][2], [out[-1]])]
+    # if (!c) A else B  ->  if (c) B else A
+    res = []
+    for st in out:
+        if st[0] == 'if' and st[3] is not None and negative(st[1]):
+            pos = negated(st[1], ints)
+            if pos is not None:
+                st = ('if', pos, st[3], st[2])
+        res.append(st)
+    return res
+
+
+def tern_to_if(sts):
+    """`return c ? X : Y;` as the last statement -> `if (c) return X; else return Y;` (normalised: a negative c is flipped).
+    For recognisers that read the if / else form; the statement rules do not do this by themselves because other recognisers read
+    the single return."""
+    if sts and _is_return(sts[-1]):
+        body = sts[-1][1][len("return"):].strip()
+        while body.startswith('(') and _paren_whole(body):
+            body = body[1:-1].strip()
+        tern = _split_tern(body)
+        if tern is not None:
+            return norm_stmts(sts[:-1] + [('if', tern[0], [('simple', "return " + tern[1])], [('simple', "return " + tern[2])])])
+    return sts
+
+
+def if_to_tern(sts):
+    """`if (c) return X; else return Y;` (also `if (c) return X; return Y;`) as the last statement -> `return c ? X : Y;`
+    For recognisers that read a single return expression."""
+    sts = norm_stmts(sts)
+    if sts and sts[-1][0] == 'if' and sts[-1][3] is not None and len(sts[-1][2]) == 1 and len(sts[-1][3]) == 1 \
+            and _is_return(sts[-1][2][0]) and _is_return(sts[-1][3][0]):
+        x, y = sts[-1][2][0][1][len("return"):].strip(), sts[-1][3][0][1][len("return"):].strip()
+        if x and y:
+            return sts[:-1] + [('simple', "return (%s) ? (%s) : (%s)" % (sts[-1][1], x, y))]
+    return sts
+
+
+def _paren_whole(text):
+    try:
+        return _closes_at_end(_ntokens(text))
+    except _NoNorm:
+        return False
+
+
+def _norm_stmt(st, ints):
+    k = st[0]
+    if k == 'simple':
+        m = re.match(r'return\b\s*(.+)$', st[1], re.S)
+        if m and _split_tern(m.group(1)) is None:
+            new = canon_if_changed(m.group(1), ints, test=False)
+            if new is not m.group(1):
+                return ('simple', "return " + new)
+        return st
+    if k == 'block':
+        return ('block', _norm_stmts(st[1], ints))
+    if k == 'if':
+        return ('if', canon_if_changed(st[1], ints), _norm_stmts(st[2], ints), None if st[3] is None else _norm_stmts(st[3], ints))
+    if k == 'while':
+        return ('while', canon_if_changed(st[1], ints), _norm_stmts(st[2], ints))
+    if k == 'for':
+        return ('for', _norm_for_header(st[1], ints), _norm_stmts(st[2], ints))
+    if k == 'foreach':                    # gen_operator.py: BOOST_FOREACH(head) body
+        return ('foreach', st[1], _norm_stmts(st[2], ints))
+    if k == 'do':                         # gen_operator.py: do body while(cond)
+        return ('do', _norm_stmts(st[1], ints), canon_if_changed(st[2], ints))
+    return st
+
+
+def _norm_for_header(head, ints):
+    parts, depth, cur = [], 0, ""
+    for ch in head:
+        if ch in '([{':
+            depth += 1
+        elif ch in ')]}':
+            depth -= 1
+        if ch == ';' and depth == 0:
+            parts.append(cur)
+            cur = ""
+        else:
+            cur += ch
+    parts.append(cur)
+    if len(parts) != 3 or not parts[1].strip():
+        return head
+    new = canon_if_changed(parts[1].strip(), ints)
+    if new is parts[1].strip() or new == parts[1].strip():
+        return head
+    return parts[0] + "; " + new + ";" + parts[2]
+
+
+# the same rules on the ASTs of cexpr.parse / cstmt.parse (for emitters that are handed an AST)
+
+def norm_ast(e, ints=False):
+    """('un','!',..) pushed inward, > / >= oriented, literals to the right of == / != ;
+    ints (the caller knows that the operands of every comparison are integers or bool): !(a == b) -> a != b, !(a < b) -> b <= a"""
+    k = e[0]
+    if k == 'un' and e[1] == '!':
+        return _neg_ast(norm_ast(e[2], ints), ints)
+    if k == 'un':
+        return ('un', e[1], norm_ast(e[2], ints))
+    if k == 'bin':
+        op, a, b = e[1], norm_ast(e[2], ints), norm_ast(e[3], ints)
+        if op in ('>', '>='):
+            op, a, b = _SWAP[op], b, a
+        if op in ('==', '!=') and a[0] == 'num' and b[0] != 'num':
+            a, b = b, a
+        return ('bin', op, a, b)
+    if k == 'tern':
+        return ('tern', norm_ast(e[1], ints), norm_ast(e[2], ints), norm_ast(e[3], ints))
+    if k == 'call':
+        return ('call', e[1], [norm_ast(a, ints) for a in e[2]])
+    if k == 'idx':
+        return ('idx', norm_ast(e[1], ints), norm_ast(e[2], ints))
+    return e
+
+
+def _neg_ast(e, ints):
+    if e[0] == 'un' and e[1] == '!' and (e[2][0] == 'un' and e[2][1] == '!' or e[2][0] == 'bin' and e[2][1] in ('==', '!=', '<', '<=', '&&', '||')):
+        return e[2]
+    if e[0] == 'bin' and e[1] in _NEG_EQ and (ints or e[2][0] == 'num' or e[3][0] == 'num'):
+        return ('bin', _NEG_EQ[e[1]], e[2], e[3])
+    if e[0] == 'bin' and ints and e[1] in _NEG_ORD:
+        return norm_ast(('bin', _NEG_ORD[e[1]], e[2], e[3]), ints)
+    if e[0] == 'bin' and e[1] == '&&':
+        return ('bin', '||', _neg_ast(e[2], ints), _neg_ast(e[3], ints))
+    if e[0] == 'bin' and e[1] == '||':
+        return ('bin', '&&', _neg_ast(e[2], ints), _neg_ast(e[3], ints))
+    return ('un', '!', e)
+
+
+def _selftest():
+    """python3 translator/cstmt.py : the rules identify what they should and nothing else"""
+    same = [("!(a != 0)", "a == 0"), ("!(it != m.end())", "it == m.end()"), ("m.end() == it", "it == m.end()"),
+            ("b > a", "a < b"), ("b >= a", "a <= b"), ("!(a && b)", "!a || !b"), ("!(a || !b)", "!a && b"),
+            ("(a == 1) && ((b) || c)", "a == 1 && (b || c)"), ("x.size() == 0", "x.empty()"), ("!x.size()", "x.empty()"),
+            ("x.size() > 0", "!x.empty()"), ("0 < x.size()", "!x.empty()"), ("x.size() >= 1", "!x.empty()"),
+            ("m.count(k) > 0", "m.find(k) != m.end()"), ("m.count(k) != 0", "m.find(k) != m.end()"), ("!m.count(k)", "m.find(k) == m.end()"),
+            ("m.count(k) == 0", "m.find(k) == m.end()"), ("!!x.empty()", "x.empty()"), ("a && (b && c)", "(a && b) && c")]
+    differ = [("a < b", "a <= b"), ("a < b", "b < a"), ("a && b", "a || b"), ("a && b", "a"), ("a && b", "b && a"), ("a == b", "a != b"),
+              ("a == b", "a <= b"), ("i < n", "i < n - 1"), ("i < n", "i < m"), ("x.size() == 1", "x.empty()"), ("x.size() > 1", "!x.empty()"),
+              ("m.count(k) > 1", "m.find(k) != m.end()"), ("m.count(k) == 1", "m.find(k) != m.end()"), ("!(a < b)", "a < b"),
+              ("!(a < b)", "a <= b"), ("!a && b", "a && b"), ("!(a && b)", "!a && !b"), ("a - b < c", "b - a < c"), ("a / b < c", "b / a < c"),
+              ("!(*l == *r)", "*l != *r"),            # class types: operator== and operator!= are two functions
+              ("!(A == B)", "A != B")]
+    for a, b in same:
+        assert canon(a) == canon(b), ("should be one condition", a, b, canon(a), canon(b))
+    for a, b in differ:
+        assert canon(a) != canon(b), ("must stay different", a, b, canon(a))
+        assert canon(a, ints=True) != canon(b, ints=True) or (a, b) in (("!(*l == *r)", "*l != *r"), ("!(A == B)", "A != B")), ("must stay different (ints)", a, b)
+    assert canon("!(a < b)") != canon("b <= a") and canon("!(a < b)", ints=True) == canon("b <= a", ints=True)     # integers only (NaN)
+    assert canon("!(a <= b)", ints=True) == canon("b < a", ints=True) and canon("!(a <= b)", ints=True) != canon("b <= a", ints=True)
+    def sq(x):                                   # statements with the blanks of their texts removed
+        if isinstance(x, str):
+            return squeeze(x)
+        if isinstance(x, (list, tuple)):
+            return type(x)(sq(y) for y in x)
+        return x
+
+    def st(text):
+        return sq(statements(text))
+    _tern_to_if, _if_to_tern = tern_to_if, if_to_tern
+
+    def tern_to_if_(x):
+        return sq(_tern_to_if(statements(x)))
+
+    def if_to_tern_(x):
+        return sq(_if_to_tern(statements(x)))
+    assert st("if (!c) A; else B;") == st("if (c) B; else A;")
+    assert st("if (it != m.end()) return it->second; else return set(k);") == st("if (it == m.end()) return set(k); return it->second;")
+    assert st("if (c) A; else B;") != st("if (c) B; else A;")                      # branches exchanged without negating: a real change
+    assert st("if (c) return X; return Y;") == st("if (c) return X; else return Y;")
+    assert st("if (c) return X; return Y;") != st("if (c) return Y; return X;")
+    assert st("if (c) return X; return Y;") != st("return Y;")                    # dropped guard
+    assert st("if (a && b) x;") != st("if (a || b) x;") and st("if (a) x;") != st("x;")
+    assert st("for (size_t i = 0; i < n; ++i) f(i);") != st("for (size_t i = 0; i <= n; ++i) f(i);")
+    assert st("for (size_t i = 0; n > i; ++i) f(i);")[0][1] == "size_ti=0;n>i;++i"        # orientation is left to the emitters
+    assert st("if (A != B) x; else y;") == [('if', 'A!=B', [('simple', 'x')], [('simple', 'y')])]   # class-typed: not flipped
+    assert st("size_t n = f(); if (n != m) x; else y;")[1] == ('if', 'n==m', [('simple', 'y')], [('simple', 'x')])
+    assert tern_to_if_("return c ? X : Y;") == st("if (c) return X; else return Y;")
+    assert tern_to_if_("return !c ? X : Y;") == st("if (c) return Y; else return X;")
+    assert if_to_tern_("if (c) return X; return Y;") == if_to_tern_("if (!c) return Y; else return X;")
+    assert if_to_tern_("if (c) return X; return Y;") != if_to_tern_("if (c) return Y; return X;")
+    e1, e2 = parse("!(i < n) || !(a != b)"), parse("n <= i || a == b")
+    assert norm_ast(e1, ints=True) == norm_ast(e2, ints=True) and norm_ast(e1) != norm_ast(e2)
+    assert norm_ast(parse("b > a"), ints=True) == norm_ast(parse("a < b"), ints=True) != norm_ast(parse("a <= b"), ints=True)
+    assert norm_ast(parse("!(a && b)"), ints=True) == norm_ast(parse("!a || !b"), ints=True) != norm_ast(parse("!a && !b"), ints=True)
+    print("cstmt selftest: ok")
+
+
+if __name__ == "__main__":
+    _selftest()
